@@ -36,7 +36,9 @@ NormNode(p) ==
         others |-> ToSet(p.others), ro |-> ToSet(p.ro), conn |-> ToSet(p.conn),
         elDue |-> p.elDue, hbDue |-> p.hbDue, queue |-> p.queue, wc |-> p.wc, wr |-> p.wr,
         rcnt |-> p.rcnt, noopIdx |-> p.noopIdx, chgIdx |-> p.chgIdx, hist |-> p.hist, ver |-> p.ver,
-        ready |-> p.ready]
+        ready |-> p.ready, force |-> p.force, lse |-> p.lse, needLoad |-> p.needLoad, serPid |-> p.serPid,
+        serId |-> p.serId, snap |-> p.snap, trans |-> p.trans, incoming |-> p.incoming,
+        rocnt |-> p.rocnt, roid |-> p.roid]
 
 Steps(t) == Traces[t].steps
 Full(t) == Steps(t)[1].full
@@ -56,6 +58,7 @@ TInit ==
   /\ up = PairSet(Full(tid).net.up)
   /\ cbs = Full(tid).cbs
   /\ nexc = Full(tid).nexc
+  /\ snaps = <<>>
   /\ GInit
 
 (* the recorded successor state *)
@@ -69,6 +72,14 @@ ActAlive(e) == IF Has(e, "net") THEN SetSet(e.net.alive) ELSE alive
 ActUp(e) == IF Has(e, "net") THEN PairSet(e.net.up) ELSE up
 ActCbs(e) == IF Has(e, "cbs") THEN [k \in DOMAIN cbs \cup DOMAIN e.cbs |-> IF k \in DOMAIN e.cbs THEN e.cbs[k] ELSE cbs[k]] ELSE cbs
 ActNexc(e) == IF Has(e, "nexc") THEN e.nexc ELSE nexc
+SnapContent(r) == [size |-> r.size, last |-> r.last, prev |-> r.prev, hist |-> r.hist, cluster |-> ToSet(r.cluster), ver |-> r.ver]
+ActSnaps(e) == IF Has(e, "newsnaps")
+               THEN AddSnaps(snaps, [k \in 1..Len(e.newsnaps) |-> [sid |-> e.newsnaps[k].sid, content |-> SnapContent(e.newsnaps[k])]])
+               ELSE snaps
+(* identity and size of a blob serialized in this step are inputs of the step (gzip/pickle are not modelled) *)
+Orc(e) == IF Has(e, "orc") THEN [sid |-> e.orc.sid, size |-> e.orc.size] ELSE [sid |-> "?", size |-> 0]
+
+Ord(e) == IF Has(e, "ord") THEN e.ord ELSE <<>>
 
 DiffFields(exp, act) ==
   {f \in DOMAIN exp \cup DOMAIN act : f \notin DOMAIN exp \/ f \notin DOMAIN act \/ exp[f] # act[f]}
@@ -79,36 +90,43 @@ CtxDiff(n, x, ch0, e) ==
       actNode == ActNode(e)[n]
       d1 == DiffFields(expNode, actNode)
       d2 == IF \E m \in Nodes \ {n} : ActNode(e)[m] # node[m] THEN {"othernode"} ELSE {}
-      d3 == IF Flush(ch0, alive, n, x.out) # ActChan(e) THEN {"chan"} ELSE {}
+      d3 == IF ExpChan(n, x, ch0, alive) # ActChan(e) THEN {"chan"} ELSE {}
       d4 == IF ApplyEv(cbs, x.ev) # ActCbs(e) THEN {"cbs"} ELSE {}
       d5 == IF (IF x.exc THEN nexc + 1 ELSE nexc) # ActNexc(e) THEN {"nexc"} ELSE {}
-      d6 == IF ActAlive(e) # alive \/ ActUp(e) # up THEN {"net"} ELSE {}
-  IN d1 \cup d2 \cup d3 \cup d4 \cup d5 \cup d6
+      d6 == IF ActAlive(e) # ExpAlive(n, x, alive) \/ ActUp(e) # ExpUp(n, x) THEN {"net"} ELSE {}
+      d7 == IF AddSnaps(snaps, x.news) # ActSnaps(e) THEN {"snaps"} ELSE {}
+  IN d1 \cup d2 \cup d3 \cup d4 \cup d5 \cup d6 \cup d7
 
 (* for the purely relational actions: evaluate Core's action on (current, recorded) *)
 Bound(e) ==
   /\ node' = ActNode(e) /\ chan' = ActChan(e) /\ alive' = ActAlive(e) /\ up' = ActUp(e)
-  /\ cbs' = ActCbs(e) /\ nexc' = ActNexc(e)
+  /\ cbs' = ActCbs(e) /\ nexc' = ActNexc(e) /\ snaps' = ActSnaps(e)
 
 StepDiff(e) ==
   LET a == e.a IN
   CASE a[1] = "Tick" ->
-         IF node[a[2]].alive THEN CtxDiff(a[2], TickCtx(a[2], a[3]), chan, e) ELSE {"disabled"}
+         IF node[a[2]].alive
+         THEN CtxDiff(a[2], TickCtx(a[2], a[3], IF Len(a) >= 4 THEN a[4] ELSE DefaultCut, Orc(e), Ord(e)), chan, e)
+         ELSE {"disabled"}
     [] a[1] = "Deliver" ->
          IF chan[a[2]][a[3]] = <<>> \/ ~node[a[3]].alive THEN {"disabled"}
          ELSE LET m == Head(chan[a[2]][a[3]]) IN
               IF m.t = "hello" THEN {} \* checked relationally below
-              ELSE CtxDiff(a[3], MsgCtx(a[3], a[2], m), [chan EXCEPT ![a[2]][a[3]] = Tail(@)], e)
+              ELSE IF a[2] \notin node[a[3]].others \cup node[a[3]].ro
+              THEN (IF ActNode(e) # node THEN {"node"} ELSE {}) \cup
+                   (IF ActChan(e) # [chan EXCEPT ![a[2]][a[3]] = Tail(@)] THEN {"chan"} ELSE {})
+              ELSE CtxDiff(a[3], MsgCtx(a[3], a[2], m, Ord(e)), [chan EXCEPT ![a[2]][a[3]] = Tail(@)], e)
     [] a[1] = "Submit" ->
          LET sp == a[4]
              s == node[a[2]]
              z == IF Has(e, "upd") /\ a[2] \in DOMAIN e.upd /\ Len(e.upd[a[2]].queue) > Len(s.queue)
                   THEN Last(e.upd[a[2]].queue).sz ELSE 0     \* the size of the real pickled command is an input
              wantCb == IF Has(sp, "cb") THEN sp.cb ELSE TRUE
-             cb == CbOf(a[3], wantCb)
-             x == IF Len(s.queue) > QueueSize THEN Fire(Ctx(s), cb, -1, QUEUE_FULL)
-                  ELSE Ctx([s EXCEPT !.queue = Append(@, [cmd |-> a[3], sz |-> z, cb |-> cb])])
-         IN IF sp.kind = "op" THEN CtxDiff(a[2], x, chan, e) ELSE {"unmodelled-submit"}
+             cmd == CASE sp.kind = "add" -> AddCmd(sp.x)
+                      [] sp.kind = "rem" -> RemCmd(sp.x)
+                      [] OTHER -> a[3]
+         IN IF sp.kind \in {"op", "boom", "add", "rem"}
+            THEN CtxDiff(a[2], SubmitCtx(a[2], a[3], cmd, z, wantCb), chan, e) ELSE {"unmodelled-submit"}
     [] OTHER -> {}
 
 Relational(e) ==
@@ -117,6 +135,9 @@ Relational(e) ==
     [] a[1] = "Break" -> Break(a[2], a[3])
     [] a[1] = "Notice" -> Notice(a[2], a[3])
     [] a[1] = "Connect" -> Connect(a[2], a[3])
+    [] a[1] = "Compact" -> Compact(a[2])
+    [] a[1] = "Start" -> StartFresh(a[2], ToSet(a[3]))
+    [] a[1] = "Stop" -> Stop(a[2])
     [] OTHER -> TRUE
 
 TNext ==
@@ -125,6 +146,7 @@ TNext ==
   /\ tid' = tid
   /\ LET e == Steps(tid)[l] IN
      /\ Bound(e)
+     /\ lastTick' = IF e.a[1] = "Tick" THEN e.a[2] ELSE Nil
      /\ GNext
      /\ LET d == StepDiff(e)
             rel == Relational(e)
